@@ -5,6 +5,8 @@ import (
 	"encoding/hex"
 	"fmt"
 	"hash"
+	"os"
+	"runtime"
 	"runtime/debug"
 	"sort"
 	"strings"
@@ -148,6 +150,13 @@ func (s *Sim) EnableYields(tape []int) {
 // DisableYields removes the hook and returns how many pauses were taken.
 func (s *Sim) DisableYields() int {
 	simyield.Clear()
+	if s.yields.Load() > 0 {
+		// A goroutine of the code under test may be standing at a yield point
+		// right now (a reporter the library started and does not join): let
+		// the longest possible pause run out before the run is wound up, or the
+		// bubble ends with a sleeping goroutine and calls that a leak.
+		time.Sleep(11 * time.Second)
+	}
 	return int(s.yields.Load())
 }
 
@@ -257,6 +266,11 @@ func Bubble(t *testing.T, keepLog bool, f func(s *Sim)) (leak bool, panicVal any
 			msg := fmt.Sprint(r)
 			if strings.Contains(msg, "deadlock: main bubble goroutine has exited") {
 				leak = true
+				if keepLog {
+					// who is it? (trace mode only)
+					buf := make([]byte, 1<<20)
+					fmt.Fprintf(os.Stderr, "%s\n%s\n", msg, buf[:runtime.Stack(buf, true)])
+				}
 				return
 			}
 			panicVal = r
